@@ -24,6 +24,18 @@ CHECKS = {
             "3-D block at that point with velocity projected; refusal without cross section. Tie: bit-exact correspondence; "
             "search: implementation 2-D vs 3-D at the independently mapped point.",
             "proof over the Gallina evaluator + bit-exact correspondence + 2-D-vs-3-D oracle", "4 C09"),
+    "C02": ("Theorems (Properties_C02.v, axiom-free): deleting a non-covering feature leaves the answer unchanged; the answer is the "
+            "fold over the covering features in file order (any permutation/deletion of the others); the tag is that of the last "
+            "covering feature; operation semantics incl. composition replace vs replace-defined-only; a feature without models of "
+            "a kind leaves the block untouched. Tie: bit-exact correspondence of the area-feature/plume models; search: "
+            "implementation vs implementation on worlds with non-covering features deleted/moved and models stripped.",
+            "proof by induction over the feature list + bit-exact correspondence + delete/permute/strip oracle", "4 C02"),
+    "C04": ("Theorems (Properties_C04.v, over exact reals): the library's polygon test, as modelled in Kernels.v, accepts a point "
+            "iff it lies on an edge or has non-zero winding number (any vertex list, either orientation, size_t wrap included); "
+            "spherical alias; area feature = polygon x depth interval; plume table lookup, cyclic angle interpolation (invisible "
+            "full turns), unchanged continuation below and half-ellipsoid head. Tie: bit-exact correspondence on >10^4 kernel and "
+            "world cases per run; search: exact rational oracle on lattices, definition-based oracle for plumes.",
+            "proof over Reals of the winding-number kernel + bit-exact correspondence + exact rational oracle", "4 C04"),
 }
 
 NOT_YET = {
